@@ -181,14 +181,17 @@ theorem encV_lib {n : String} (h : libNames.contains n = true) {fs : List (Strin
     simp [encV, libStruct, hk, hlen]
 
 
+theorem cbCode_names {n : String} (h : libNames.contains n = true) (pv : Bool) : cbCode n pv = none := by
+  simp [libNames] at h
+  rcases h with rfl | rfl <;> rfl
+
 /-- named struct types: the body comes from the table, the name is in `tab` while it is compiled -/
 theorem codeOK_lib (hco : 0 < co.maxInlineDepth) {n : String} {vs : List GoVal}
-    (hS : Sub (.lib n) = true) (hC : Conf co (.lib n) (.st vs) = true)
+    (hS : libNames.contains n = true) (hC : Conf co (.lib n) (.st vs) = true)
     (hIH : ∀ v ∈ vs, ∀ t, Sub t = true → Conf co t v = true → CodeOK o co t v)
     (hIH2 : ∀ w, GoVal.ptr w ∈ vs → ∀ e, Sub e = true → Conf co e w = true → CodeOK o co e w) :
     CodeOKn o co (.lib n) (.st vs) := by
   intro lv tab hlv hnh addr fpv P pc sp pv r s b hat hg hs
-  simp only [Sub] at hS
   obtain ⟨fs, ks, hls, hk, hSF, hSK⟩ := lib_facts hS
   simp only [Conf, hls, hk] at hC
   simp only [needV, hls] at hs
@@ -196,6 +199,7 @@ theorem codeOK_lib (hco : 0 < co.maxInlineDepth) {n : String} {vs : List GoVal}
   rw [encV_lib hS hls hk addr vs hlen]
   have hlt := libLeft_lib_lt hS hnh
   rw [code, if_neg (by simp [hnh])] at hat ⊢
+  simp only [cbCode_names hS] at hat ⊢
   cases lv with
   | zero => omega
   | succ lv' =>
@@ -216,7 +220,7 @@ theorem codeOK_lib (hco : 0 < co.maxInlineDepth) {n : String} {vs : List GoVal}
       have hprog : compile co (.lib n) (fpv || pv) = structBody co (libK co 1) [.lib n] 0 0 (fpv || pv) fs ks := by
         unfold compile
         rw [code, if_neg (by simp [tabHas])]
-        simp only [libNames, List.length_cons, List.length_nil, libK, hls, Option.map, Option.getD, cutOff_zero hco,
+        simp only [cbCode_names hS, libNames, List.length_cons, List.length_nil, libK, hls, Option.map, Option.getD, cutOff_zero hco,
           Bool.false_eq_true, if_false, hk]
         rfl
       obtain ⟨cok, cerr⟩ := structBody_ok (o := o) hk hSF hSK hC hIH hIH2 1 [.lib n] hl1 addr (fpv || pv)
